@@ -2,7 +2,10 @@
 
 package eio
 
-import "sort"
+import (
+	"sort"
+	"time"
+)
 
 // VerifSession is one entry of the server's socket store as seen by the verification harness.
 type VerifSession struct {
@@ -36,4 +39,12 @@ func VerifSetBase64IDSeq(seq uint32) {
 	base64IDMu.Lock()
 	defer base64IDMu.Unlock()
 	base64IDSeq = seq
+}
+
+// VerifSetPing changes the ping interval / timeout that sockets created from now on get
+// (lets the harness make one session die of a ping timeout on a server whose other
+// sessions stay alive).
+func (s *Server) VerifSetPing(interval, timeout time.Duration) {
+	s.pingInterval = interval
+	s.pingTimeout = timeout
 }
